@@ -2357,6 +2357,14 @@ class TaskPool:
         itask.reset_try_timers()
         self.data_store_mgr.delta_task_prerequisite(itask)
 
+        if itask.waiting_on_job_prep:
+            # Already on its way to job submission (triggered before, or
+            # released by its queue, and not yet prepared): it will run in
+            # the next main loop iteration. Do not queue it as well - it
+            # would run now AND stay in the queue, to be released (and
+            # submitted) a second time later.
+            return
+
         if itask.state_reset(TASK_STATUS_WAITING):
             # (could also be unhandled failed)
             self.data_store_mgr.delta_task_state(itask)
